@@ -262,6 +262,31 @@ fn run_corpus(prop: &'static str, cfg: &Config, ex: &Explorer) -> Report {
     )
 }
 
+/// every truncation (at a character boundary) of every generated well-formed program: the
+/// nesting of calls, strings and statements cut off by end of input
+fn run_program_truncations(prop: &'static str, cfg: &Config, ex: &Explorer) -> Report {
+    let progs = crate::grammar::programs(if cfg.tier == Tier::Quick { 2 } else { 3 }, true);
+    let mut offs: Vec<u64> = Vec::with_capacity(progs.len() + 1);
+    let mut total = 0u64;
+    for p in &progs {
+        offs.push(total);
+        total += p.chars().count() as u64; // cuts 0..len-1 (the whole program is a G-chain input)
+    }
+    offs.push(total);
+    ex.run_list(
+        "truncations of generated programs",
+        total,
+        |i, buf| {
+            let k = offs.partition_point(|&o| o <= i) - 1;
+            let nth = (i - offs[k]) as usize;
+            let p = &progs[k];
+            let cut = p.char_indices().nth(nth).map_or(p.len(), |(b, _)| b);
+            buf.push_str(&p[..cut]);
+        },
+        |local, input, _| visit_text(prop, local, input),
+    )
+}
+
 /// pumped families w^k (C01 linearity)
 fn run_pumped(cfg: &Config, ex: &Explorer) -> Report {
     let core = spaces::s9_core();
@@ -356,6 +381,9 @@ pub fn structural(prop: &'static str, cfg: &Config) -> PropRun {
     }
     if prop == "C01" && cfg.only_spaces.is_empty() {
         report.absorb(run_pumped(cfg, &ex));
+    }
+    if matches!(prop, "C01" | "C02" | "C09" | "C10") && cfg.only_spaces.is_empty() {
+        report.absorb(run_program_truncations(prop, cfg, &ex));
     }
     report.distinct_nontrivial = ex.distinct_nontrivial.load(std::sync::atomic::Ordering::Relaxed);
     PropRun { report, rule: rule.to_string(), oracle: format!("oracle of {prop} (DESIGN 5)") }
